@@ -43,7 +43,10 @@ def attributed_props(f, fns_meta):
     fp = meta.get('props', [])
     if f['kind'] in IMPLICIT_KINDS or (f['kind'] == 'callee-pre' and 'vstd' in f['clause']):
         return ['C05'] if 'C05' in fp else fp
-    return fp
+    # an untagged proof step (ghost assert, untagged invariant) supports the functional clauses of the function, not its
+    # panic-freedom: C05 is claimed only through the implicit obligations above and through clauses tagged with it
+    rest = [p for p in fp if p != 'C05']
+    return rest or fp
 
 
 def callee_closure(unit, prop):
